@@ -479,31 +479,151 @@ def _norm_dump(o):
     return norm(o)
 
 
-def attribute_nested_leak(ops, i, got, alone):
-    """known finding: class c was reached earlier *through a configured root that nests it* (per-class dumper/loader
-    attributes and key caches were rebound under the root's Meta), and is now used on its own or under another root"""
-    # the recorded leak only concerns the key style and the TIMESTAMP hooks of dumps: anything else that differs is new
-    if ops[i]['op'] not in ('dump', 'dumpnew'):
-        return None
-    if json.dumps(_norm_dump(got), sort_keys=True) != json.dumps(_norm_dump(alone), sort_keys=True):
-        return None
+def class_metas(ops):
+    """class name -> the settings it was given (inner Meta, mixin-implied, LoadMeta / DumpMeta binds), from the definition ops"""
+    metas = {}
+    for op in ops:
+        if op['op'] == 'src':
+            for nm, m in (op.get('metas') or {}).items():
+                metas.setdefault(nm, {}).update(m or {})
+        elif op['op'] == 'def':
+            def walk(t):
+                if t['k'] == 'cls':
+                    metas.setdefault(t['info']['name'], {}).update(model.own_meta(t['info']) or {})
+                    for _, ft in t['ftys']:
+                        walk(ft)
+                elif t['k'] in ('namedtuple', 'typeddict'):
+                    for f in t['fields']:
+                        walk(f[1])
+                else:
+                    for x in t.get('a', []):
+                        walk(x)
+            walk(op['ty'])
+        elif op['op'] == 'bind':
+            for k, v in op['meta'].items():
+                metas.setdefault(op['cls'], {})[{'key_transform': 'key_transform_with_' + op['kind']}.get(k, k)] = v
+    return metas
+
+
+def leak_roots(ops, i):
+    """the configured roots through which the recorded leak can reach op i: a root that nests a class used now and was used earlier,
+    or the root used now when a class it nests was used earlier on its own / under another root"""
     nests, configured = nest_info(ops)
     used_now = set(ops[i].get('uses') or [ops[i]['cls']])
     for r, ns in nests.items():
         used_now |= (ns if r in used_now else set())
+    roots = []
     for j in range(i):
         oj = ops[j]
         if oj['op'] not in ('load', 'dump', 'dumpnew'):
             continue
         rj = oj['cls']
         if rj in configured and (nests.get(rj, set()) & used_now) and rj != ops[i]['cls']:
-            return 'shared-nested-config-leak'
+            roots.append(rj)
         # the other direction: the nested class was first used on its own (or under another root), and is now reached
         # through a configured root
         ci = ops[i]['cls']
         used_j = set(oj.get('uses') or [rj]) | nests.get(rj, set())
         if ci in configured and rj != ci and (nests.get(ci, set()) & used_j):
+            roots.append(ci)
+    return roots
+
+
+def _nkey(k):
+    return k.lower().replace('_', '').replace('-', '') if isinstance(k, str) else k
+
+
+def _doc_keys(doc, acc=None, exact=False):
+    acc = set() if acc is None else acc
+    if isinstance(doc, dict):
+        for k, v in doc.items():
+            acc.add(k if exact else _nkey(k))
+            _doc_keys(v, acc, exact)
+    elif isinstance(doc, list):
+        for v in doc:
+            _doc_keys(v, acc, exact)
+    return acc
+
+
+def _only_key_matching_differs(op, got, alone, field_names, field_defaults, strict_own):
+    """load outcomes that differ only in *which spellings of field names* were matched to their fields: a field whose key is in
+    the document was matched on one side and not on the other (declared default / MissingFields / the key reported unknown by
+    the class's own strict setting); any other difference (another value, another class, another error) is not of this shape"""
+    keys = _doc_keys(op.get('doc'))
+
+    def kind(o):
+        return 'ok' if o[0] == 'ok' else o[1]
+    kg, ka = kind(got), kind(alone)
+    if not {kg, ka} <= {'ok', 'MissingFields', 'UnknownKeysError'}:
+        return False
+
+    def spelled(fields):
+        return all(_nkey(f) in keys for f in fields)
+    if kg == 'MissingFields' and not spelled(set(got[2]) - set(alone[2] if ka == 'MissingFields' else [])):
+        return False
+    if ka == 'MissingFields' and not spelled(set(alone[2]) - set(got[2] if kg == 'MissingFields' else [])):
+        return False
+    fields_n = {_nkey(f) for f in field_names} | {_nkey(f) for f in field_defaults}
+    for a, b in ((got, alone), (alone, got)):
+        if kind(a) == 'UnknownKeysError':
+            other = set(b[2]) if kind(b) == 'UnknownKeysError' else set()
+            if not strict_own or not all(_nkey(k) in fields_n for k in set(a[2]) - other):
+                return False
+    if ka == 'UnknownKeysError' and kg == 'ok':
+        return False            # a key no transform can match stays unknown
+    if kg == ka == 'ok':
+        def same(x, y):
+            if x == y:
+                return True
+            if isinstance(x, list) and isinstance(y, list) and x and y and x[0] == y[0] == 'inst':
+                if x[1] != y[1] or [f for f, _ in x[2]] != [f for f, _ in y[2]]:
+                    return False
+                for (f, vx), (_, vy) in zip(x[2], y[2]):
+                    if vx != vy and not same(vx, vy):
+                        if f in field_defaults and field_defaults[f] in (vx, vy) and _nkey(f) in keys:
+                            continue
+                        return False
+                return True
+            if isinstance(x, list) and isinstance(y, list) and len(x) == len(y):
+                return all(same(p, q) for p, q in zip(x, y))
+            return False
+        return same(got[1], alone[1])
+    return True
+
+
+def attribute_nested_leak(ops, i, got, alone, field_names=(), field_defaults=None):
+    """known finding: class c was reached earlier *through a configured root that nests it* (per-class dumper/loader
+    attributes and key caches were rebound under the root's Meta), and is now used on its own or under another root"""
+    if ops[i]['op'] in ('dump', 'dumpnew'):
+        # dump side: the recorded leak only concerns the key style and the TIMESTAMP hooks: anything else that differs is new
+        if json.dumps(_norm_dump(got), sort_keys=True) != json.dumps(_norm_dump(alone), sort_keys=True):
+            return None
+        return 'shared-nested-config-leak' if leak_roots(ops, i) else None
+    if ops[i]['op'] == 'load':
+        # load side: the rebound loader attribute is the load key transform, so (cause) one of the roots must set one, and (symptom)
+        # only the matching of spellings of field names may differ
+        metas = class_metas(ops)
+        all_roots = leak_roots(ops, i)
+        roots = [r for r in all_roots if (metas.get(r) or {}).get('key_transform_with_load')]
+        if not all_roots:
+            return None
+        nests, _ = nest_info(ops)
+        used = set(ops[i].get('uses') or [ops[i]['cls']])
+        strict_own = any((metas.get(c) or {}).get('raise_on_unknown_json_key') for c in used | {r for r in nests if nests[r] & used and r == ops[i]['cls']})
+        if roots and _only_key_matching_differs(ops[i], got, alone, field_names, field_defaults or {}, strict_own):
             return 'shared-nested-config-leak'
+        # the per-class key cache, other direction: a key that a nested class ignored (and cached as ignorable) when it was used on
+        # its own / under a lenient root is not reported when the class is now reached through its strict root
+        ci = ops[i]['cls']
+        if ci in all_roots and (metas.get(ci) or {}).get('raise_on_unknown_json_key') and alone[0] == 'err' and alone[1] == 'UnknownKeysError' \
+                and (got[0] == 'ok' or got[1] in ('MissingFields', 'UnknownKeysError')):
+            lost = set(alone[2]) - (set(got[2]) if got[0] == 'err' and got[1] == 'UnknownKeysError' else set())
+            earlier = set()
+            for oj in ops[:i]:
+                if oj['op'] == 'load' and oj['cls'] != ci:
+                    _doc_keys(oj.get('doc'), earlier, exact=True)
+            if lost and lost <= earlier:
+                return 'shared-nested-config-leak'
     return None
 
 
